@@ -53,7 +53,7 @@ func buildC19Transcoder(codecs []string, comps []string, maxURL uint32, protocol
 	}))
 }
 
-var c19Idem = map[string]string{"Unary": "unknown", "UnaryIdem": "idempotent", "UnaryNSE": "no_side_effects", "GetParams": "no_side_effects", "PostParams": "unknown", "Multi": "no_side_effects"}
+var c19Idem = map[string]string{"Unary": "unknown", "UnaryIdem": "idempotent", "UnaryNSE": "no_side_effects", "GetParams": "no_side_effects", "PostParams": "unknown", "Multi": "no_side_effects", "GetIdem": "idempotent", "NestedVar": "unknown"}
 
 func runC19(c *Ctx, i int, r *rand.Rand) {
 	kitchen()
@@ -70,7 +70,7 @@ func runC19(c *Ctx, i int, r *rand.Rand) {
 }
 
 func c19Refusal(c *Ctx, i int, r *rand.Rand) {
-	m := kitchenInfo[pick(r, []string{"Unary", "UnaryIdem", "PostParams", "UnaryNSE", "GetParams"})]
+	m := kitchenInfo[pick(r, []string{"Unary", "UnaryIdem", "PostParams", "UnaryNSE", "GetParams", "GetIdem"})]
 	cfg := genConfig(r)
 	creq := &ClientReq{Form: FConnectGet, M: m, Codec: pick(r, []string{"proto", "json"}), GetViaQuery: chance(r, 50), GetPadded: chance(r, 50), GetNoBase64: chance(r, 50),
 		Msgs: []proto.Message{genMessage(r, m.In(), genOpts{density: 3, noMaps: true})}, HTTP2: chance(r, 50), Comp: pick(r, []string{"", "gzip"})}
@@ -178,7 +178,9 @@ func c19Equivalence(c *Ctx, i int, r *rand.Rand) {
 }
 
 func c19Issue(c *Ctx, i int, r *rand.Rand) {
-	m := kitchenInfo[pick(r, []string{"Unary", "UnaryIdem", "UnaryNSE", "GetParams", "PostParams", "Multi"})]
+	// (GetIdem and NestedVar have REST GET bindings without being side-effect-free: a REST client's GET is accepted for
+	// them, but it must reach a Connect backend as a POST)
+	m := kitchenInfo[pick(r, []string{"Unary", "UnaryIdem", "UnaryNSE", "GetParams", "PostParams", "Multi", "GetIdem", "GetIdem", "NestedVar"})]
 	form := pick(r, formsFor(m))
 	codecs := pick(r, [][]string{{"proto"}, {"json"}, {"jsonu"}, {"jsonu", "proto"}, {"proto", "json"}})
 	comps := pick(r, [][]string{{}, {"gzip"}})
